@@ -630,7 +630,7 @@ func runDispatch(e *ev.Env) {
 		}}
 		checkProgram(e, c, p, [][2]string{{"GET", "/a"}, {"POST", "/a"}, {"PUT", "/a"}})
 	})
-	e.Cases("tables", e.N(400, 25000), func(c *ev.Case) {
+	e.Cases("tables", e.N(4000, 150000), func(c *ev.Case) {
 		r := c.R
 		p := genProgram(r)
 		nreq := e.N(40, 60)
